@@ -90,10 +90,11 @@ def main():
     work = os.path.join(sc, "c15work")
     os.makedirs(work)
     tpath = os.path.join(sc, "trace.ndjson")
-    reps = (6 if thorough else 2) if hooks else (3 if thorough else 1)
+    reps = 10 if thorough else 2                  # hooked (recorded + perturbed) repetitions per case
+    max_hooked = 0 if thorough else 1500          # 0 = all
     env = vlib.goenv()
     env["GORACE"] = "halt_on_error=1 exitcode=66"
-    args = [binp, "run", cpath, work, str(ck.seed), str(reps), tpath if hooks else "-"]
+    args = [binp, "run", cpath, work, str(ck.seed), str(reps), tpath if hooks else "-", str(max_hooked)]
     if corrupt:
         args.append("corrupt")
     p = vlib.run(args, check=False, timeout=3000, env=env)
@@ -110,20 +111,21 @@ def main():
         ck.finish()
     s = vlib.harness_results(ck, p)
     vlib.log("harness done: %d runs" % s["runs"])
-    if s["cases"] != len(uniq) or s["runs"] != s["jobs"] or s["jobs"] != len(uniq) * 3 * reps:
-        raise vlib.InfraError("harness executed %s of %d x 3 x %d runs" % (s["runs"], len(uniq), reps))
+    want_hooked = 0 if not hooks else (min(max_hooked, len(uniq) * reps) if max_hooked else len(uniq) * reps)
+    if s["cases"] != len(uniq) or s["runs"] != s["jobs"] or s["jobs"] != len(uniq) * 3 + want_hooked:
+        raise vlib.InfraError("harness executed %s of %d x 3 + %d runs" % (s["runs"], len(uniq), want_hooked))
     if s["hooks"] != hooks:
         raise vlib.InfraError("hook detection and harness build disagree")
     ck.set("cases", s["cases"])
     ck.set("real_runs", s["runs"] * 2)
     ck.set("worker_counts", s["worker_counts"])
-    ck.set("repetitions", reps)
+    ck.set("hooked_runs", s["hooked_runs"] * 2)
     ck.set("hooks_present", hooks)
 
     if hooks:
-        if s["hook_events"] < 10 * s["runs"] // 4 or s["traced_runs"] == 0:
+        if s["hook_events"] < 8 * s["hooked_runs"] or s["traced_runs"] == 0:
             raise vlib.InfraError("the hook fired only %d times in %d runs" % (s["hook_events"], s["runs"]))
-        if reps > 1 and s["perturbations"] == 0:
+        if s["perturbations"] == 0:
             raise vlib.InfraError("no schedule perturbation happened")
         trace = open(tpath).read()
         nlines = trace.count("\n")
@@ -158,7 +160,7 @@ def main():
         ck.set("traces_validated_against_impl", 0)
     ck.set("evaluations", s["runs"] * 2)
     ck.set("bounds", {"mc": [list(m) for m in mcs], "gen_max_files": gen_files, "dir_paths": 31})
-    ck.set("rule", "every terminated behaviour of Generate.tla for the emission universe (one per tree x flags), each executed with W in {1,2,8} x %d repetitions, twice" % reps)
+    ck.set("rule", "every terminated behaviour of Generate.tla for the emission universe (one per tree x flags), each executed with W in {1,2,8} (8 at a time, race detector) and, with the hook, %d recorded+perturbed repetitions with W in {2,8}; every run twice" % reps)
     ck.assume("-lazy trusts modification times: a newer _templ.go is left alone even if its content differs (modelled as specified by the flag)")
     ck.assume("the root directory itself has a plain name (ShouldSkip is applied to the root's absolute path as well)")
     ck.assume("real goroutine schedules are sampled (W, repetitions, perturbation, race detector); all schedules are explored in the model only")
